@@ -321,10 +321,10 @@ def _sample(lines):
 GEN = {"C15": lambda rng, th: c15_cases(rng, 12 if not th else 150),
        "C07": lambda rng, th: [dict(c, routes=[dict(c["routes"][0], up=1 + i % 5)]) for i, c in enumerate(c07_cases(rng, 3 if not th else 16, 40 if not th else 200, 2 if not th else 6))],
        "C03": lambda rng, th: c03_cases(rng, 6 if not th else 80)}
-MCS = {"C15": [("MC_DnsRoute", "MC_DnsRoute.cfg")], "C07": [("DnsForward", "MC_DnsForward.cfg"), ("DnsForward", "MC_DnsForward_live.cfg")], "C03": [("DnsForward", "MC_DnsForward.cfg")]}
+MCS = {"C15": [("MC_DnsRoute", "MC_DnsRoute.cfg")], "C07": [("DnsForward", "MC_DnsForward.cfg"), ("DnsForward", "MC_DnsForward_live.cfg"), ("MC_DnsTcpStream", "MC_DnsTcpStream.cfg")], "C03": [("DnsForward", "MC_DnsForward.cfg")]}
 RULES = {
     "C15": "case = route table (1..6 routes x 0..4 suffixes over nested/sibling suffixes and the empty suffix, some written in upper case) in two permutations (routes and suffixes shuffled) x names of 0..5 labels in lower, upper and mixed case, with and without RD, over four listeners; observed: rcode at the client and which scripted upstream (one per route, 127.0.10.k:53) received the question; TLC evaluates DnsRoute!Outcomes",
-    "C07": "batches of concurrent queries (UDP and TCP, four listener kinds) against scripted upstreams executing fault schedules: 0..3 dropped transmissions x {answer, wrong id -> TCP, TC -> TCP, duplicate, late}, held (reordered) TCP replies, silent upstream; per query TLC checks exactly one reply, own id/question/answer, source = destination queried, SERVFAIL on silence, <= 5 transmissions, reply within 60 s",
+    "C07": "batches of concurrent queries (UDP and TCP, four listener kinds; TCP also with 2..5 queries pipelined on one connection, the stream written in one piece or chopped into pieces of 1, 7 and 64 octets) against scripted upstreams executing fault schedules: 0..3 dropped transmissions x {answer, wrong id -> TCP, TC -> TCP, duplicate, late}, held (reordered) TCP replies, silent upstream; per query TLC checks exactly one reply, own id/question/answer, source = destination queried, SERVFAIL on silence, <= 5 transmissions, reply within 60 s",
     "C03": "queries (any type, EDNS/DO/CD, UDP/TCP, four listeners, v4 and v6 upstreams) whose upstream replies are generated structured messages (0..8 records of all rdata shapes per section, rcodes, compressed or not, TTLs 1..2^32-1), some asked again from cache; both the bytes the upstream sent and the bytes the client received are projected by the harness's walker; TLC checks id/question/QR/rcode and section-wise equality (TTL only ever reduced)",
 }
 
@@ -339,6 +339,8 @@ def check(pid, tier):
         if pid == "C07":
             r = tlc_mc(run, "DnsForward", "MC_DnsForward_nocoll.cfg", workers=4, timeout=300, coverage=False, tag="nocoll", expect_violation=True)
             refuted = (not r["ok"]) and r["violated"] is not None
+            r2 = tlc_mc(run, "MC_DnsTcpStream", "MC_DnsTcpStream_legacy.cfg", workers=2, timeout=120, coverage=False, tag="legacytcp", expect_violation=True)
+            legacy_refuted = (not r2["ok"]) and r2["violated"] is not None
         cases = GEN[pid](run.rng, run.thorough)
         if pid in ("C07", "C03"):
             # last: it may leave the TCP channel to that upstream dead for the rest of the process
@@ -354,6 +356,7 @@ def check(pid, tier):
         }
         if refuted is not None:
             cov["model_finds_tcp_id_collision"] = refuted
+            cov["model_refutes_one_query_per_connection_listener"] = legacy_refuted
         rc = finish(run, "model_checking", cov, [
             "in-process DnsService inside a private network namespace (unshare -n -m); clients and scripted upstreams on loopback addresses; real timers",
             "events are numbered by one process-wide sequence counter; the follower judges each query at the end of its case",
